@@ -90,6 +90,7 @@ class MockProvider:
         self.flows = {}          # state string -> dict(nonce=..., challenge=..., redirect=..., prov=...)
         self.code_owner = {}     # code -> state string of the flow the provider bound it to
         self.rt = 0
+        self.fail_next = False   # the next token / access-token request is refused by the provider
 
     def handle(self, method, url, body, headers):
         form = dict(up.parse_qsl(body or "", keep_blank_values=True))
@@ -97,6 +98,11 @@ class MockProvider:
         if url.endswith("/request"):
             self.rt += 1
             return 200, "oauth_token=rt%d&oauth_token_secret=rs%d&oauth_callback_confirmed=true" % (self.rt, self.rt), "application/x-www-form-urlencoded"
+        if self.fail_next and not url.endswith("/request"):
+            self.fail_next = False
+            if url.endswith("/access"):
+                return 401, "error=token_rejected", "application/x-www-form-urlencoded"
+            return 400, json.dumps({"error": "invalid_grant", "error_description": "provider says no"}), "application/json"
         if url.endswith("/access"):
             return 200, "oauth_token=at1&oauth_token_secret=as1", "application/x-www-form-urlencoded"
         tok = {"access_token": "AT-" + form.get("code", ""), "token_type": "Bearer", "expires_in": 3600}
@@ -206,8 +212,9 @@ class FlaskAdapter(Base):
             self.sessions[sess] = dict(session)
         return self.record_begin(prov, resp.headers["Location"], redirect)
 
-    def callback(self, sess, prov, ref, code):
+    def callback(self, sess, prov, ref, code, provider_fails=False):
         from flask import session
+        self.provider.fail_next = provider_fails
         st = self.state_string(ref)
         if PROVIDERS[prov].get("oauth1"):
             q = {"oauth_verifier": "v"}
@@ -268,7 +275,8 @@ class DjangoAdapter(Base):
             resp = getattr(self.oauth, prov).authorize_redirect(self._request(sess, "/login"), redirect)
         return self.record_begin(prov, resp["Location"], redirect)
 
-    def callback(self, sess, prov, ref, code):
+    def callback(self, sess, prov, ref, code, provider_fails=False):
+        self.provider.fail_next = provider_fails
         st = self.state_string(ref)
         if PROVIDERS[prov].get("oauth1"):
             q = {"oauth_verifier": "v"}
@@ -323,7 +331,8 @@ class StarletteAdapter(Base):
         resp = asyncio.run(getattr(self.oauth, prov).authorize_redirect(self._request(sess, "/login"), redirect))
         return self.record_begin(prov, resp.headers["location"], redirect)
 
-    def callback(self, sess, prov, ref, code):
+    def callback(self, sess, prov, ref, code, provider_fails=False):
+        self.provider.fail_next = provider_fails
         st = self.state_string(ref)
         if PROVIDERS[prov].get("oauth1"):
             q = {"oauth_verifier": "v"}
